@@ -10,10 +10,10 @@ CONSTANTS
   Deviations <- NoDev
   ConeIgnoresSwap = FALSE
 VIEW view
+INVARIANT RejectClean
 INVARIANT RegIsRun
 INVARIANT NormOne
 INVARIANT QueriesAgree
-INVARIANT RejectClean
 INVARIANT PermIsPerm
 INVARIANT PermSound
 CHECK_DEADLOCK FALSE
